@@ -28,6 +28,7 @@ from dromedary import errors as transport_errors
 from dromedary.errors import NoSuchFile
 from dulwich.config import ConfigFile as GitConfigFile
 from dulwich.config import parse_submodules
+from dulwich.errors import RefFormatError
 from dulwich.object_store import peel_sha
 from dulwich.objects import ZERO_SHA, NotCommitError
 from dulwich.repo import check_ref_format
@@ -514,7 +515,13 @@ class LocalGitTagDict(GitTags):
             git_sha, _mapping = self.branch.lookup_bzr_revision_id(revid)
         except errors.NoSuchRevision as err:
             raise errors.GhostTagsNotSupported(self) from err
-        self.refs[tag_name_to_ref(name)] = git_sha
+        ref = tag_name_to_ref(name)
+        # The refs container still tolerates empty path components (it stores
+        # refs/tags//a as refs/tags/a): refuse every name git cannot represent
+        # instead of storing the tag under another name.
+        if not check_ref_format(ref[len(b"refs/") :]):
+            raise RefFormatError(ref)
+        self.refs[ref] = git_sha
         self.branch._tag_refs = None
 
     def delete_tag(self, name):
